@@ -4,7 +4,7 @@ shadows module-global names inside the repo's modules (the function bodies execu
 import sys
 import importlib
 import numpy as real_np
-from symx.core import SymInt, is_sym, b_and, b_or, Unsupported, eng, PathAbort
+from symx.core import SymInt, is_sym, b_and, b_or, Unsupported, eng, PathAbort, fx
 from symx import builtins as sb
 from .lazybytes import (LazyBytes, FileSrc, CodeSrc, ConstSrc, ShimStruct, shim_bytes, shim_bytearray, ZERO, EOF,
                         MIXED, TagSrc)
@@ -17,14 +17,20 @@ class PathCtx:
         self.compress_calls = []     # (frozen input LazyArr, rate, ub)
         self.files = {}              # name -> ShimFile content holder
         self.hash_updates = []
+        self.hash_objects = []
+        self.queues = []
+        self.baton = Baton()
+        self.dist_version = '0.2.5'
         self.notes = []
 
 
-CTX = PathCtx()
+CTX = None
 
 
 def reset_ctx():
     global CTX
+    if CTX is not None and CTX.baton.threads:
+        CTX.baton.shutdown()
     CTX = PathCtx()
     clear_all_caches()      # every path starts in a fresh process state (class-level lru caches are empty)
     return CTX
@@ -106,8 +112,9 @@ class ShimFile:
             b = b.tobytes()
         b = LazyBytes.wrap(b).snapshot()
         c = self.store.content
-        n = b.length
-        end = self.pos + n
+        n = fx(b.length)
+        self.pos = fx(self.pos)
+        end = fx(self.pos + n)
         if self.pos > c.length:
             # hole is zero-filled
             c.layers.append((c.length, self.pos - c.length, LazyBytes.zeros(self.pos - c.length), 0))
@@ -598,3 +605,246 @@ def recache_classes(mods):
 def clear_all_caches():
     for w in _ALL_CACHES:
         w.cache_clear()
+
+
+# ---------------------------------------------------------------------------------- threads / queues (data-flow mode)
+import threading as _threading
+
+
+class ThreadKill(BaseException):
+    """Unwinds a stub worker thread at the end of a path."""
+
+
+class PipelineStuck(Exception):
+    """A blocking queue operation can never complete under the eager deterministic schedule."""
+
+
+class Baton:
+    """Strict hand-off scheduler: the producer (main) and the stub worker threads are real OS threads, but exactly
+    one holds the baton at any time, so the symbolic engine is never used concurrently and the run is deterministic.
+    Schedule (data-flow mode): a started thread runs until it blocks; put() hands the baton to a getter blocked on that
+    queue; a blocked get() hands it back.  All interleavings are the subject of the C16 BMC, not of this stub."""
+    def __init__(self):
+        self.main_sem = _threading.Semaphore(0)
+        self.threads = []
+        self.current = None
+        self.exc = None
+        self.killed = False
+
+    def _sem(self, t):
+        return self.main_sem if t is None else t.sem
+
+    def switch_to(self, t):
+        me = self.current
+        t.caller = me
+        self.current = t
+        t.sem.release()
+        self._sem(me).acquire()
+        self._after_resume(me)
+
+    def _after_resume(self, me):
+        if me is None:
+            if self.exc is not None:
+                e, self.exc = self.exc, None
+                raise e
+        elif self.killed or self.exc is not None:
+            raise ThreadKill()
+
+    def block(self, t):
+        """t cannot proceed: give the baton back to whoever handed it over and wait."""
+        c = t.caller
+        self.current = c
+        self._sem(c).release()
+        t.sem.acquire()
+        self._after_resume(t)
+
+    def finished(self, t):
+        c = t.caller
+        self.current = c
+        self._sem(c).release()
+
+    def shutdown(self):
+        self.killed = True
+        for t in self.threads:
+            if t.state in ('blocked', 'runnable'):
+                t.caller = None
+                self.current = t
+                t.sem.release()
+                self.main_sem.acquire()
+        self.current = None
+        for t in self.threads:
+            t.os.join(timeout=5)
+
+
+class ShimThread:
+    def __init__(self, group=None, target=None, name=None, args=(), kwargs=None, daemon=None):
+        self.target, self.args, self.kwargs = target, args, kwargs or {}
+        self.daemon = daemon
+        self.sem = _threading.Semaphore(0)
+        self.state = 'new'
+        self.caller = None
+        self.os = None
+
+    def start(self):
+        b = CTX.baton
+        b.threads.append(self)
+        self.state = 'runnable'
+        self.os = _threading.Thread(target=self._run, daemon=True)
+        self.os.start()
+        b.switch_to(self)
+
+    def _run(self):
+        b = CTX.baton
+        self.sem.acquire()
+        try:
+            if not b.killed:
+                prof = getattr(_threading, '_verif_profile', None)
+                if prof is not None:
+                    sys.setprofile(prof)
+                self.target(*self.args, **self.kwargs)
+            self.state = 'finished'
+        except ThreadKill:
+            self.state = 'killed'
+        except BaseException as e:
+            self.state = 'crashed'
+            if b.exc is None:
+                b.exc = e
+        finally:
+            sys.setprofile(None)
+            b.finished(self)
+
+    def join(self, timeout=None):
+        if self.state not in ('finished', 'killed', 'crashed'):
+            raise PipelineStuck("join() on a thread that never returns")
+
+    def is_alive(self):
+        return self.state in ('runnable', 'blocked')
+
+
+class ShimQueue:
+    def __init__(self, maxsize=0):
+        self.maxsize = maxsize
+        self.items = []
+        self.unfinished = 0
+        self.getter = None
+        self.put_log = []
+        CTX.queues.append(self)
+
+    def put(self, item, block=True, timeout=None):
+        if self.maxsize and len(self.items) >= self.maxsize:
+            raise PipelineStuck("put() on a full queue with no consumer able to run")
+        self.items.append(item)
+        self.unfinished += 1
+        g = self.getter
+        if g is not None:
+            self.getter = None
+            CTX.baton.switch_to(g)
+
+    def get(self, block=True, timeout=None):
+        b = CTX.baton
+        while not self.items:
+            t = b.current
+            if t is None:
+                raise PipelineStuck("get() on an empty queue from the producer thread")
+            self.getter = t
+            t.state = 'blocked'
+            b.block(t)
+            t.state = 'runnable'
+        return self.items.pop(0)
+
+    def task_done(self):
+        if self.unfinished <= 0:
+            raise ValueError('task_done() called too many times')
+        self.unfinished -= 1
+
+    def join(self):
+        if self.unfinished:
+            raise PipelineStuck("join() with %d unfinished tasks and every consumer blocked" % self.unfinished)
+
+    def qsize(self):
+        return len(self.items)
+
+    def empty(self):
+        return not self.items
+
+    def full(self):
+        return bool(self.maxsize) and len(self.items) >= self.maxsize
+
+
+# ---------------------------------------------------------------------------------- hashlib / pkg_resources
+class ShimHash:
+    def __init__(self, name):
+        self.name = name
+        self.updates = []
+        CTX.hash_objects.append(self)
+
+    def update(self, a):
+        if isinstance(a, LazyArr):
+            a = a.frozen()
+        self.updates.append(a)
+
+    def digest(self):
+        return LazyBytes.of(TagSrc(('digest', id(self))), 20)
+
+    def hexdigest(self):
+        return self.digest().hex()
+
+
+class ShimHashlib:
+    @staticmethod
+    def new(name, *a, **k):
+        return ShimHash(name)
+
+    @staticmethod
+    def sha1(*a, **k):
+        return ShimHash('sha1')
+
+
+class _Dist:
+    def __init__(self, version):
+        self.version = version
+
+
+class ShimPkgResources:
+    @staticmethod
+    def get_distribution(name):
+        return _Dist(CTX.dist_version)
+
+
+def install_writer_shims(mods, fs):
+    """Extra shadowing for the conversion modules (threads, queues, hashing, distribution metadata, open())."""
+    cu, cv = mods['conversion_utils'], mods['conversion']
+    cu.Thread = ShimThread
+    cu.Queue = ShimQueue
+    cu.hashlib = ShimHashlib
+    cu.pkg_resources = ShimPkgResources
+    cu.open = fs.open
+    cv.open = fs.open
+    mods['cropping'].open = fs.open
+    mods['read'].open = fs.open
+
+    class _Time:
+        @staticmethod
+        def time():
+            return 0.0
+    cu.time = _Time
+    cv.time = _Time
+    cu.progress_printer = lambda *a, **k: None
+
+    class _Warn:
+        @staticmethod
+        def warn(*a, **k):
+            CTX.notes.append('warning: %s' % (a[0] if a else ''))
+
+        class catch_warnings:
+            def __enter__(self):
+                return self
+
+            def __exit__(self, *a):
+                return False
+
+        @staticmethod
+        def filterwarnings(*a, **k):
+            pass
+    cu.warnings = _Warn
+    cv.warnings = _Warn
